@@ -11,8 +11,10 @@
                 completely what those items carry; no hang, no exception outside the documented SPSDK family.
 """
 import os
+import re
 import struct
 import sys
+import time
 
 sys.path.insert(0, os.path.dirname(os.path.dirname(os.path.abspath(__file__))))
 sys.path.insert(0, os.path.join(os.path.dirname(os.path.dirname(os.path.abspath(__file__))), "impl"))
@@ -22,7 +24,10 @@ import regen_c10
 import c10_refdev as ref
 
 PID = "C10"
-THEOREMS = []
+THEOREMS = ["frame_roundtrip", "frame_roundtrip_device", "report_roundtrip", "frames_crc_checked", "success_sound",
+            "success_sound_serial", "success_complete_refuted", "short_report_refuted", "status_mirrors_device",
+            "property_values_mirror_device", "packets_bounded", "data_written_once_in_order", "faultfree_refines_spec",
+            "write_reaches_memory"]
 OPN = {1: "flash_erase_all", 2: "flash_erase_region", 3: "read_memory", 34: "read_memory(fast)", 4: "write_memory", 5: "fill_memory",
        6: "flash_security_disable", 7: "get_property", 8: "receive_sb_file", 9: "execute", 10: "call", 12: "set_property",
        13: "flash_erase_all_unsecure", 14: "efuse_program_once", 15: "efuse_read_once", 16: "flash_read_once",
@@ -179,6 +184,14 @@ def succeeded(op, res):
     return True
 
 
+BOOL_OPS = {1, 2, 4, 5, 6, 8, 9, 10, 12, 13, 14, 17, 19, 20, 22, 23, 24, 25, 26, 27, 29, 30, 32, 33}
+
+
+def true_with_error(op, res):
+    """a bool-returning call answers True although status_code reports an error"""
+    return op in BOOL_OPS and res[0] == 0 and res[1] == ("i", 1) and res[2] != 0
+
+
 def oracle_live(case, ir):
     """fault-free closed loop: API results must mirror what the reference device sent and received."""
     out = []
@@ -197,11 +210,17 @@ def oracle_live(case, ir):
         if res[0] >= 10:
             out.append((sig + f":crash:{r[1]}", f"call {k} {name}{ints} raised a non-SPSDK exception {r[1]}"))
             continue
+        if res[0] in (1, 2, 3, 5, 6):
+            validation = (op == 16 and ints[1] not in (4, 8)) or (op == 17 and len(data) not in (4, 8)) or \
+                         (op == 6 and len(data) != 8) or (op == 18 and ints[1] % 4 != 0)
+            if not (validation and res[0] in (5, 6)):
+                out.append((sig + f":spurious-exception:{r[1]}", f"call {k} {name}{ints} raised {r[1]} although the link and the device are fault free"))
+            continue
         ent = [e for e in log if nws[k] < e[-1] <= nws[k + 1]]
         # the first data-phase call of a session asks for the max packet size first: not part of this call's own exchange
         if ent and ent[0][0] == "cmd" and ent[0][1] == 7 and ent[0][3][:1] == [ref.P_MAX_PACKET] and op != 7:
             j = 1
-            while j < len(ent) and ent[j][0] != "cmd":
+            while j < len(ent) and ent[j][0] in ("status", "values"):
                 j += 1
             ent = ent[j:]
         cmds = [e for e in ent if e[0] == "cmd"]
@@ -215,8 +234,8 @@ def oracle_live(case, ir):
         ok = succeeded(op, res)
         if op == 14 and ints[2:] and ints[2]:
             continue       # verify variant: the status may be replaced by OTP_VERIFY_FAIL on purpose
-        if ok and any(s != 0 for s in statuses):
-            out.append((sig + ":success-on-error", f"call {k} {name} reported success, device sent statuses {statuses}"))
+        if (ok or (op in BOOL_OPS and res[0] == 0 and res[1] == ("i", 1))) and any(s != 0 for s in statuses):
+            out.append((sig + ":success-on-error", f"call {k} {name} reported success {short(res)}, device sent statuses {statuses}"))
         if ok and not cmds and op != 29 and not (op == 3 and tr == "hid" and ints[1] == 0):
             out.append((sig + ":no-command", f"call {k} {name} reported success but the device received no command"))
         if res[0] == 0 and statuses and res[2] != statuses[-1]:
@@ -290,26 +309,44 @@ def carried(op, ints, frames, tr, mps):
     return out
 
 
-def oracle_fault(case, ir, fclass, what):
-    """one API call against a scripted (faulted) stream: success must be backed by the consumed input."""
+KIND_EXC = {10: "error", 11: "AssertionError", 12: "ValueError", 13: "IndexError", 14: "ZeroDivisionError"}
+
+
+def obs_impl(ir):
+    r = ir["results"][0]
+    return {"res": canon_impl(r), "exc": r[1] if r[0] == "exc" else None, "left": ir["left"],
+            "writes": [bytes.fromhex(w) for w in ir["writes"]]}
+
+
+def obs_model(mv):
+    m = mv[1]
+    res = canon_model(m[0][1][0])
+    return {"res": res, "exc": KIND_EXC.get(res[0], "exception"), "left": m[2][1], "writes": [x[1] for x in m[1][1]]}
+
+
+def oracle_fault(case, ob, fclass, what):
+    """one API call against a scripted (faulted) stream: success must be backed by the consumed input.
+    `ob` is the observation (of the implementation, or of the model when a disagreement is classified)."""
     out = []
     c = case["calls"][0]
     op, ints, data = c[0], c[1], bytes.fromhex(c[2])
     name, tr = OPN[op], case["transport"]
-    res = canon_impl(ir["results"][0])
+    res = ob["res"]
     sig = f"fault:{tr}:{name}:ce{case['cmd_exception']}:{fclass}"
     if res[0] == 99:
         return [(sig + ":hang", f"{name} did not return within the time limit under [{what}]")]
     if res[0] >= 10:
-        return [(sig + f":crash:{ir['results'][0][1]}", f"{name} raised the non-SPSDK exception {ir['results'][0][1]} under [{what}]")]
+        return [(sig + f":crash:{ob['exc']}", f"{name} raised the non-SPSDK exception {ob['exc']} under [{what}]")]
+    if true_with_error(op, res):
+        return [(sig + ":true-with-error-status", f"{name} returned True with status_code {res[2]} [{what}]")]
     if not succeeded(op, res):
         return out
     if tr == "serial":
         stream = bytes.fromhex(case["stream"])
-        items = ref.parse_stream(stream[:len(stream) - ir["left"]])
+        items = ref.parse_stream(stream[:len(stream) - ob["left"]])
     else:
         reps = [bytes.fromhex(r) for r in case["reports"]]
-        items = hid_items(reps[:len(reps) - ir["left"]])
+        items = hid_items(reps[:len(reps) - ob["left"]])
     if items is None:
         return [(sig + ":success-on-malformed-input", f"{name} reported success {short(res)} although the input it consumed is not a "
                                                       f"sequence of well-formed, CRC-valid items [{what}]")]
@@ -328,8 +365,7 @@ def oracle_fault(case, ir, fclass, what):
                         f"{want if isinstance(want, str) else want.hex()} [{what}]"))
     if op in DATA_OUT_OPS:
         sent = b""
-        for w in ir["writes"]:
-            w = bytes.fromhex(w)
+        for w in ob["writes"]:
             if tr == "serial" and len(w) > 6 and w[1] == ref.DATA:
                 sent += w[6:]
             if tr == "hid" and w[0] == ref.HID_DATA_OUT:
@@ -523,35 +559,47 @@ def run(tier):
         rep.obligation("translate:spsdk/mboot/*.py->Gen/GenMboot.v", True)
     except Exception as ex:  # noqa
         rep.obligation("translate:spsdk/mboot/*.py->Gen/GenMboot.v", False, repr(ex))
+    t0 = time.time()
     model_ok, mout = vlib.coq_make(["Model/MbootModel.vo"])
     if THEOREMS:
         vlib.check_theorems(rep, PID, THEOREMS, ["Proofs/MbootProofs.vo"])
     vlib.audit(rep)
+    vlib.log(f"  [proofs] build + {len(THEOREMS)} property theorems + audit: {time.time() - t0:.1f} s")
 
-    def both(tag, cases):
+    def both(tag, cases, shard=250):
         """run implementation and model on the cases; returns (impl results, model values or None)"""
+        t0 = time.time()
         pub = [{k: v for k, v in c.items() if not k.startswith("_")} for c in cases]
         ir = []
         for i in range(0, len(pub), 4000):
             ir += vlib.run_impl("c10_impl.py", {"cases": pub[i:i + 4000]}, timeout=3000)["cases"]
         mv = None
+        t1 = time.time()
         if model_ok:
             try:
-                mv = vlib.run_model_cases(tag, "Value MbootModel", [model_expr(c) for c in cases], shard=300, timeout=1500, jobs=8)
+                mv = vlib.run_model_cases(tag, "Value MbootModel", [model_expr(c) for c in cases], shard=shard, timeout=1500, jobs=8)
             except Exception as ex:  # noqa
                 rep.obligation(f"correspondence:{tag}:model evaluation", False, repr(ex))
+        vlib.log(f"  [{tag}] {len(cases)} cases: implementation {t1 - t0:.1f} s, model {time.time() - t1:.1f} s")
         return ir, mv
 
-    def correspond(name, cases, irs, mvs, describe):
-        nd = 0
+    def correspond(name, cases, irs, mvs, describe, repaired=None):
+        """model = implementation on every case; `repaired(i)` says that case i differs only because the implementation
+        no longer shows a recorded known finding (the model is kept faithful to the defective code until it is flipped)"""
+        nd, nrep = 0, 0
         if mvs is None:
             return
-        for c, ir, mv in zip(cases, irs, mvs):
+        for i, (c, ir, mv) in enumerate(zip(cases, irs, mvs)):
             d = compare(c, ir, mv)
+            if d and repaired is not None and repaired(i):
+                nrep += 1
+                continue
             if d:
                 nd += 1
                 if nd <= 5:
                     vlib.log(f"  disagreement [{name}] {describe(c)}: {d[0]}")
+        if nrep:
+            vlib.log(f"  [{name}] {nrep} cases differ from the model only because a recorded known finding no longer reproduces")
         rep.obligation(f"correspondence:{name}: model = implementation on {len(cases)} cases", nd == 0, f"{nd} disagreements")
 
     # ---- codec units
@@ -600,7 +648,7 @@ def run(tier):
 
     # ---- live sequences
     live = gen_live(tier, rng)
-    lir, lmv = both("c10l", live)
+    lir, lmv = both("c10l", live, shard=6)
     correspond("live sequences", live, lir, lmv, lambda c: f"{c['transport']} ce={c['cmd_exception']} calls={[(x[0], x[1], len(x[2]) // 2) for x in c['calls']]}")
     nl = 0
     for c, ir in zip(live, lir):
@@ -624,26 +672,46 @@ def run(tier):
             stream = b"".join(bytes.fromhex(x) for x in r[0]["reads"])
             items = ref.parse_stream(stream)
             reports = [bytes.fromhex(x) for x in r[1]["reads"]]
+            sfaults = serial_faults(stream, items, tier, rng)
+            hfaults = hid_faults(reports, tier, rng)
             for ce in (0, 1):
                 sc = {"cmd_exception": ce, "mode": "script", "calls": base["calls"], "mps_cache": mps, "time_limit": 5}
                 fcases.append(dict(sc, transport="serial", stream=stream.hex()))
                 fwhat.append(("none", f"{name}: no fault"))
-                for fc, what, s in serial_faults(stream, items, tier, rng):
+                for fc, what, s in sfaults:
                     fcases.append(dict(sc, transport="serial", stream=s.hex()))
                     fwhat.append((fc, f"{name}: {what}"))
                 fcases.append(dict(sc, transport="hid", reports=[x.hex() for x in reports]))
                 fwhat.append(("none", f"{name}: no fault"))
-                for fc, what, rs in hid_faults(reports, tier, rng):
+                for fc, what, rs in hfaults:
                     fcases.append(dict(sc, transport="hid", reports=[x.hex() for x in rs]))
                     fwhat.append((fc, f"{name}: {what}"))
     fir, fmv = both("c10f", fcases)
     wmap = {id(c): w[1] for c, w in zip(fcases, fwhat)}
-    correspond("fault injection at every stream position", fcases, fir, fmv, lambda c: f"{c['transport']} ce={c['cmd_exception']} {wmap[id(c)]}")
+    def is_known(sig):
+        return any(f.get("status") == "finding" and re.fullmatch(f["signature"], sig) for f in rep.findings)
+    group = {}
+    for i, c in enumerate(fcases):
+        group.setdefault((c["transport"], c.get("stream", repr(c.get("reports"))), repr(c["calls"])), []).append(i)
+
+    def repaired(i):
+        c = fcases[i]
+        if oracle_fault(c, obs_impl(fir[i]), fwhat[i][0], fwhat[i][1]):
+            return False                      # the implementation itself violates the property here
+        if succeeded(c["calls"][0][0], canon_impl(fir[i]["results"][0])):
+            return False                      # only a failure report may replace a known defective outcome
+        for j in group[(c["transport"], c.get("stream", repr(c.get("reports"))), repr(c["calls"]))]:
+            sigs = [sg for sg, _ in oracle_fault(fcases[j], obs_model(fmv[j]), fwhat[j][0], fwhat[j][1])]
+            if sigs and all(is_known(sg) for sg in sigs):
+                return True
+        return False
+    correspond("fault injection at every stream position", fcases, fir, fmv,
+               lambda c: f"{c['transport']} ce={c['cmd_exception']} {wmap[id(c)]}", repaired if fmv is not None else None)
     kinds = {}
     for c, ir, w in zip(fcases, fir, fwhat):
         r0 = canon_impl(ir["results"][0])
         kinds[r0[0]] = kinds.get(r0[0], 0) + 1
-        for sig, msg in oracle_fault(c, ir, w[0], w[1]):
+        for sig, msg in oracle_fault(c, obs_impl(ir), w[0], w[1]):
             rep.failing(sig, msg, {"kind": "fault", "fault": w[1], "case": c, "impl": ir["results"]})
     rep.add_stream("single fault at every position of the device->host stream", len(fcases),
                    len({(c["transport"], c.get("stream", repr(c.get("reports"))), c["cmd_exception"]) for c in fcases}),
